@@ -293,6 +293,58 @@ func checkC14(c *Ctx, r *Report) {
 		}
 	}
 
+	// the selection only grows: what a selector returns contains every connection it appended (no truncation / restart
+	// of `selected` between the passes), so the unprotected pass is never discarded in favour of the all-peers pass
+	for _, k := range []string{cm("getConnsToClose"), cm("getConnsToCloseEmergency")} {
+		f := r2.need(k)
+		if f == nil {
+			continue
+		}
+		apps := appendOfType(f, "network.Conn")
+		inSel := map[ssa.Value]bool{}
+		for _, a := range apps {
+			inSel[a.(ssa.Value)] = true
+		}
+		// close under phis
+		for changed := true; changed; {
+			changed = false
+			allInstrs(f, func(in ssa.Instruction) {
+				if p, ok := in.(*ssa.Phi); ok && !inSel[p] {
+					for _, e := range p.Edges {
+						if inSel[e] {
+							inSel[p] = true
+							changed = true
+						}
+					}
+				}
+			})
+		}
+		bad := ""
+		allInstrs(f, func(in ssa.Instruction) {
+			if sl, ok := in.(*ssa.Slice); ok && inSel[strip2(sl.X)] {
+				bad = c.Pos(instrPos(in))
+			}
+		})
+		// every append continues the previous selection (its first argument is the selection so far or the fresh slice)
+		for _, a := range apps {
+			base := strip2(a.(*ssa.Call).Call.Args[0])
+			if _, fresh := base.(*ssa.MakeSlice); !fresh && !inSel[base] {
+				bad = c.Pos(instrPos(a))
+			}
+		}
+		okRet := true
+		for _, ret := range returnsOf(f) {
+			v := retVal(ret, 0)
+			if isNilConst(v) {
+				continue
+			}
+			if _, fresh := strip2(v).(*ssa.MakeSlice); !fresh && !inSel[strip2(v)] {
+				okRet = false
+			}
+		}
+		r2.Check(bad == "" && okRet && len(apps) >= 1, k+": the selection only grows and is what is returned", f.Pos(), len(apps)+1, "", "connections chosen in an earlier pass are dropped from the result: protected peers are closed while unprotected ones selected before them stay open", bad)
+	}
+
 	// ---- R3 ---------------------------------------------------------------
 	r3 := r.Rule("C14-R3", "E1", 6, "connCount moves by +1 exactly with registering an untracked connection, by -1 exactly with removing a tracked one")
 	isCountAdd := func(delta int64) func(ssa.Instruction) bool {
